@@ -195,6 +195,18 @@ fn build(sc: &Scenario) -> (Vec<Task>, Results, Box<dyn Fn() -> Vec<Rec>>) {
     match (sc.store.as_str(), sc.lock.as_str()) {
         ("option", "mutex") => go!(Arc::new(tokio::sync::Mutex::new(Yielding { inner: seeds().into_iter().next(), before: 1, after: 0 }))),
         ("option", _) => go!(Arc::new(tokio::sync::RwLock::new(Yielding { inner: seeds().into_iter().next(), before: 1, after: 0 }))),
+        // a store that lists the most recent credential first (what the trait's documentation
+        // recommends), behind the shipped lock wrappers
+        ("recency", lock) => {
+            let mut rs = RefStore::with(seeds());
+            rs.newest_first = true;
+            let inner = Yielding { inner: rs, before: 1, after: 0 };
+            if lock == "mutex" {
+                go!(Arc::new(tokio::sync::Mutex::new(inner)))
+            } else {
+                go!(Arc::new(tokio::sync::RwLock::new(inner)))
+            }
+        }
         ("memory-flaky", lock) => {
             let m: MemoryStore = seeds().into_iter().map(|p| (p.credential_id.to_vec(), p)).collect();
             let inner = Yielding { inner: FlakyUpdate { inner: m, failed: Default::default() }, before: 1, after: 0 };
@@ -268,6 +280,10 @@ fn judge(sc: &Scenario, end: &End, outs: &[Option<Outcome>], store: &[Rec]) -> V
         if counters.len() != before {
             v.push(("duplicate-counter".into(), format!("{before} successful assertions with credential {} carry counters with a repeat (distinct values {counters:?})", hex(&c[..4]))));
         }
+        // a seeded credential starts at START: nothing it hands out may be at or below that
+        if seeds().iter().any(|s| s.credential_id.to_vec() == c) && counters.iter().any(|n| *n <= START) {
+            v.push(("counter-went-backwards".into(), format!("credential {} stored counter {START} before these ceremonies, yet an assertion with it reports {:?}", hex(&c[..4]), counters.iter().filter(|n| **n <= START).collect::<Vec<_>>())));
+        }
         let stored = store.iter().find(|r| r.id == c).and_then(|r| r.counter);
         // a ceremony that failed after its counter write has used up a value: the store may be ahead of
         // the largest *reported* counter by at most one per such failure
@@ -279,7 +295,7 @@ fn judge(sc: &Scenario, end: &End, outs: &[Option<Outcome>], store: &[Rec]) -> V
     }
     // seeded credentials never disappear
     for s in seeds() {
-        if sc.store.starts_with("memory") && !store.iter().any(|r| r.id == s.credential_id.to_vec()) {
+        if (sc.store.starts_with("memory") || sc.store == "recency") && !store.iter().any(|r| r.id == s.credential_id.to_vec()) {
             v.push(("seeded-credential-lost".into(), "a credential that existed before is gone".into()));
         }
     }
@@ -314,6 +330,9 @@ pub fn scenarios(tier: Tier) -> Vec<(Scenario, Option<usize>)> {
             // silent assertions (nothing asked of the user, nothing reported) advance the counter too
             v.push((mk("assert;silent;silent", vec![Op::AssertThenSilent(1)], "memory"), None));
             v.push((mk("u2f-register;assert;assert", vec![Op::U2fRegisterThenAssertTwice], "memory"), None));
+            // list-less assertions on a store that lists by recency, next to a registration (what the
+            // store lists first changes while the assertion is under way)
+            v.push((mk("assert(any)||register(recency store)", vec![Op::AssertAny, Op::Register], "recency"), None));
             // a ceremony that fails after its counter write next to one that succeeds: whatever the
             // failing one does to the store, the stored counter never falls below one handed out
             v.push((mk("assert(fails late)||assert(same)", vec![Op::AssertPrfFailsLate(1), Op::Assert(1)], "memory"), None));
